@@ -1,8 +1,8 @@
 """C11 - every computed route is a real, loop-free, constraint-respecting shortest path.
 
 B1  TLC checks RoutingModel (the router at the grain of compute_constrained_path / compute_path_dsjctn) against the
-    clauses of Routing.tla: exhaustively on all 64 weighted 3-site meshes (all end points, all include lists of <= 2
-    ROADMs, all labellings) and on 4-site meshes (quick: the seeded sample replayed below; thorough: all 4 096), plus
+    clauses of Routing.tla: exhaustively on all 125 3-site meshes (links: none, 0 km amplifier-only patch, 50, 140, 300 km) (all end points, all include lists of <= 2
+    ROADMs, all labellings) and on 4-site meshes (quick: the seeded sample replayed below; thorough: all 15 625), plus
     model-level sanity of the judgement (what the model does not allow is rejected).
 B2  MC_Routing's generation configuration emits (mesh, batch) cases; every mesh becomes a real topology, is
     auto-designed once and every batch goes through the real pipeline functions in planning() order; the returned
@@ -21,22 +21,23 @@ PID = 'C11'
 
 TIERS = {
     #            4-site meshes, singles 1-in-Thin, lines, twins, pairs (free riders), 5-site meshes, Thin5, B3 seeded, CORONET
-    'quick': dict(meshes4=300, thin=15, lines=12, twins=2, pairs=6, meshes5=0, thin5=0, b3=40, conus=14, glob=0),
-    'thorough': dict(meshes4=None, thin=6, lines=20, twins=3, pairs=6, meshes5=150, thin5=15, b3=300, conus=60, glob=25),
+    'quick': dict(meshes4=300, thin=15, lines=12, twins=2, pairs=12, meshes5=0, thin5=0, b3=40, conus=14, glob=0),
+    'thorough': dict(meshes4=None, thin=24, lines=8, twins=1, pairs=6, meshes5=150, thin5=15, b3=300, conus=60, glob=25),
 }
 
 
 def b1_runs(ids4, w):
     """the two model-checking runs of B1 as thunks (run side by side with the generation)"""
     def small():
-        return ('MC_Routing 3 sites: all 64 meshes, all src/dst, all include lists <= 2, all labellings',
+        return ('MC_Routing 3 sites: all 125 meshes, all src/dst, all include lists <= 2, all labellings',
                 tlc.run('MC_Routing', cfg_text=ru.mc_cfg(NSites=3, OneSrcDst=False, LinePer=12, TwinPer=3, PairPer=9),
                         timeout=1800, tag='c11-mc3', workers=w))
 
     def four():
         if ids4 is None:
-            return ('MC_Routing 4 sites: all 4096 meshes, src/dst fixed by symmetry, all include lists <= 2',
-                    tlc.run('MC_Routing', timeout=3000, tag='c11-mc4', workers=w))
+            return ('MC_Routing 4 sites: all 15625 meshes, src/dst fixed by symmetry, all include lists <= 2',
+                    tlc.run('MC_Routing', cfg_text=ru.mc_cfg(LinePer=2, TwinPer=1, PairPer=2, TriplePer=1, OverlapPer=1),
+                            timeout=6000, tag='c11-mc4', workers=w))
         return (f'MC_Routing 4 sites: {len(ids4)} sampled meshes, all include lists <= 2',
                 tlc.run('MC_Routing', cfg_text=ru.mc_cfg(UseSample=True), workers=w,
                         extra_modules={'RoutingSample': ru.sample_module(ids4)}, timeout=1800, tag='c11-mc4'))
@@ -44,13 +45,9 @@ def b1_runs(ids4, w):
 
 
 def keep_for_c11(b):
-    """singles, lines, twins, and group batches that carry a request outside the group"""
-    if not b['groups']:
-        return True
-    grouped = set()
-    for g in b['groups']:
-        grouped |= set(g)
-    return len(grouped) < len(b['reqs'])
+    """singles, lines, twins, and the pairs: their free riders are judged in full, and what C11 says of every
+    returned route (real, loop-free, STRICT hops crossed, reverse) is judged for the grouped requests as well"""
+    return True
 
 
 def run(chk):
@@ -61,16 +58,24 @@ def run(chk):
     rng = random.Random(chk.seed)
     salt = chk.seed % 10007
     all4 = p['meshes4'] is None
-    ids4 = list(range(1, 4096)) if all4 else [i for i in ru.stratified_meshes(4, p['meshes4'], rng) if i != 0]
+    ids4 = list(range(1, ru.BASE ** 6)) if all4 else [i for i in ru.stratified_meshes(4, p['meshes4'], rng) if i != 0]
     t0 = time.time()
-    w = ru.share(3)
-    small, four = b1_runs(None if all4 else ids4, w)
     gen = dict(NSites=4, OneSrcDst=False, Thin=p['thin'], LinePer=p['lines'], TwinPer=p['twins'], PairPer=p['pairs'],
                TriplePer=0, OverlapPer=0, Salt=salt)
-    parts = ru.slices(ids4, 512)               # bounded memory: generate / replay / judge 512 meshes at a time
-    (n1, r1), (n2, r2), jobs = ru.parallel(small, four, lambda: ru.generate(chk, parts[0], 'c11-gen4', workers=w, **gen))
+    parts = ru.slices(ids4, 2048)              # bounded memory: generate / replay / judge 2048 meshes at a time
+    big = None
+    if all4:                                   # the exhaustive 4-site run goes on beside the whole replay
+        small, four = b1_runs(None, max(2, ru.nworkers() // 2))
+        big = ru.background(four)
+        w = ru.share(4)
+        (n1, r1), jobs = ru.parallel(small, lambda: ru.generate(chk, parts[0], 'c11-gen4', workers=w, **gen))
+    else:
+        w = ru.share(3)
+        small, four = b1_runs(ids4, w)
+        (n1, r1), (n2, r2), jobs = ru.parallel(small, four,
+                                               lambda: ru.generate(chk, parts[0], 'c11-gen4', workers=w, **gen))
+        chk.add_mc(n2, r2)
     chk.add_mc(n1, r1)
-    chk.add_mc(n2, r2)
     chk.exhaustive = True
     timing = dict(b1_and_first_generation=round(time.time() - t0, 1))
     t1 = time.time()
@@ -104,9 +109,15 @@ def run(chk):
     t1 = time.time()
     b3(chk, p, rng)
     timing['b3'] = round(time.time() - t1, 1)
+    if big is not None:
+        t1 = time.time()
+        n2, r2 = big.result()
+        chk.add_mc(n2, r2)
+        timing['waited_for_exhaustive_b1'] = round(time.time() - t1, 1)
     chk.cov['timing_s'] = timing
     chk.assume('generated meshes: 4 (thorough also 5) ROADM sites, at least one link, no parallel links, fibre pairs of '
-               '100/200/300 km (whole km: edge weights add 0.01 m per non-fibre hop, so length order = fibre length order)')
+               '50/140/300 km or 0 km amplifier-only patches (whole km: edge weights add 0.01 m per non-fibre hop, so length '
+               'order = fibre length order; equal lengths are all accepted)')
     chk.assume('include lists name ROADMs or fibres of existing links, never a transceiver, an unknown element or the '
                'same element twice; source != destination')
     chk.assume('mixed LOOSE/STRICT list that cannot be met although its STRICT hops alone could: unjudged '
